@@ -8,6 +8,7 @@
 From Coq Require Import NArith Bool List Lia.
 From RS.Gen Require Import Prelude GenConsts.
 From RS.Model Require Import Field Tables Sched Layout Kernels.
+From RS.Proofs Require Import FieldFacts Param Linear.
 Import ListNotations.
 Local Open Scope N_scope.
 
@@ -17,6 +18,13 @@ Definition blocks : list (list N) :=
   [blk 1; blk 77; blk 200; repeat 0 64; repeat 255 64; repeat 15 64; repeat 240 64; repeat 128 64;
    map (fun i => i mod 16) (range 0 64); map (fun i => (i mod 16) * 16) (range 0 64)].
 Definition engines := [Naive; NoSimd; Ssse3; Avx2; Neon; DefaultE].
+
+(* Naive and NoSimd: for EVERY 64-byte block and every multiplier the kernel is the field
+   multiplication of each 16-bit lane (nibble decomposition + additivity of the product) *)
+Theorem C03_mul_portable : forall m b, m <= 65535 -> length b = 64%nat -> Forall (fun x => x < 256) b ->
+  naive_mul_block m b = spec_mul_block m b /\ nosimd_mul_block m b = spec_mul_block m b.
+Proof. intros; split; [apply naive_mul_block_spec|apply nosimd_mul_block_spec]; assumption. Qed.
+Print Assumptions C03_mul_portable.
 
 Theorem C03_mul_instances :
   forallb (fun m => forallb (fun b => forallb (fun e => leq (mul_block e m b) (spec_mul_block m b)) engines) blocks)
